@@ -219,7 +219,7 @@ PROPS = {
         'level': 'proof',
         'kani': True,
         'native': True,
-        'technique': 'contract-based deductive verification (Verus) of the real Terminal::handle_key / update_next / get_current / is_next, extracted '
+        'technique': 'contract-based deductive verification (Verus) of the real Terminal::handle_key / update_next / get_current / is_next / read_line_raw / read_line, extracted '
                      'mechanically on every run, against a reference editor over character sequences; the str helpers have assumed character-level '
                      'contracts, each enumerated to a bound on the real code (engine N, Kani)',
         'explanation': 'PROVED (Verus, unit terminal, for every key and every editor state satisfying the invariant, hence by induction for key sequences '
